@@ -319,6 +319,18 @@ def _c18_min_needs():
 # reserved min(no-feed result, minimum share) of their need, filled in the documented priority order - C18's contract
 CONTRACTS += _c18_min_needs()
 CONTRACTS += _c05_first_round()
+
+
+def _c13_minimum_share():
+    """'the configured minimum share': the numeric override reaches the constants under every shut-off schedule (also the
+    two whose own default is 10 %) - C13's override contracts for that key, re-run under this property."""
+    from contracts import C13
+    from contracts.common import relabelled
+    return relabelled([c for c in C13.CONTRACTS if type(c).__name__ == "Override"
+                       and c.key == "MINIMUM_PERCENT_FED_BEFORE_NONHUMAN_CONSUMPTION_ALLOWED"], "C03")
+
+
+CONTRACTS += _c13_minimum_share()
 def pinned_human_consumption(repo, tier, seed):
     """Mechanism of sentence 1: in the feed round what people were reserved is PINNED (within 1e-5, 1e-4 below ten
     million people) - C02's lemma group, re-run under this property (a looser band hands human food to the animals)."""
